@@ -639,8 +639,25 @@ func checkChi(c *Ctx, r *Run) {
 			if !ok {
 				return
 			}
-			if o := calleeObj(call); o != nil && o.Name() == "accumulate" && firstAcc == nil {
-				firstAcc = call
+			// the weighted-sum step by role, not by name: a method of the package's field-element type (an array of
+			// words) whose two other operands are pointers to OTBytes-sized vectors
+			if cal := call.Call.StaticCallee(); cal != nil && firstAcc == nil && cal.Signature.Recv() != nil && cal.Pkg == fn.Pkg && len(call.Call.Args) == 3 {
+				rt := cal.Signature.Recv().Type()
+				if pt, isP := rt.(*types.Pointer); isP {
+					rt = pt.Elem()
+				}
+				_, recvIsArray := rt.Underlying().(*types.Array)
+				vecs := 0
+				for _, a := range call.Call.Args[1:] {
+					if pt, isP := a.Type().Underlying().(*types.Pointer); isP {
+						if arr, isA := pt.Elem().Underlying().(*types.Array); isA && arr.Len() == 16 {
+							vecs++
+						}
+					}
+				}
+				if recvIsArray && vecs == 2 {
+					firstAcc = call
+				}
 			}
 		})
 		if firstAcc != nil && digest != nil {
